@@ -3,6 +3,7 @@ import FsModel.Flow
 import FsModel.OpSeq
 import FsModel.Generated
 import FsModel.ImplCheck
+import FsModel.SpillCheck
 
 /-! `fsmodel`: reads the harness transcript (scenario lines `C`, implementation-defined inputs
 `I`), runs the executable model and prints its own `O` lines in the harness format. -/
@@ -299,7 +300,18 @@ def callUpdate (c : Call) (st : St) (mstHook : Hook) :
       match resolved, findInp c "impl_elev" with
       | true, some ev =>
         let zi := fromList 0.0 (ev.map hexF)
-        [c06, line "cert_c01" (if Fs.ImplCheck.checkFlow S t (nbIdx st.topo) mask isBase zi (!basic) then "1" else "0")]
+        -- C02 on the elevation the implementation returned: spill-level table by minimax relaxation,
+        -- accepted only if stable; soundness `Fs.ImplCheck.checkC02_sound'` (the symmetry of the
+        -- neighbour lists it needs is decided by `nbSymOk`)
+        let o : Fs.UB.Ord F := { lt := S.lt, nextUp := S.nextUp }
+        let nbI := nbIdx st.topo
+        let flood := ops.any (fun o => match o with | .pflood => true | _ => false)
+        let k := if flood then n + 2 else n
+        let seedF := fun i => decide (i < n) && isBase i
+        let c02 := Fs.ImplCheck.nbSymOk n nbI &&
+          Fs.ImplCheck.checkC02 o n nbI seedF mask (fun a b => a.toBits == b.toBits) z zi k
+        [c06, line "cert_c01" (if Fs.ImplCheck.checkFlow S t (nbIdx st.topo) mask isBase zi (!basic) then "1" else "0"),
+         line "cert_c02" (if c02 then "1" else "0")]
       | _, _ => [c06]
   ({ st with ops := ops, g := r.g, mask := mask, isBase := isBase, snaps := r.snaps, implT := implT },
    if r.hang then ["O hang"] else outs ++ certs ++ r.notes)
